@@ -80,7 +80,8 @@ func runC20(c *Ctx) {
 		}
 	}
 	c.R.Check(nW == 1 && nDel == 2, r2, "router", "history table writes and subscription deletions enumerated", "-", fmt.Sprintf("writes=%d deletions=%d", nW, nDel))
-	c.R.Floor(r2, 6)
+	ruleMatchFunctions(c, r2) // pattern histories retain what the match functions say matches
+	c.R.Floor(r2, 12)
 
 	const r3 = "C20.R3 only unrestricted publications are saved, as subscriber-independent events"
 	pe := brk + "syncPubEvent"
